@@ -1,12 +1,15 @@
 """C08 - durations are parsed exactly or rejected, and formatting is invertible.
 
-pass M  Apalache, symbolic over all of int64, on the design specs spec/c08/DurParse.tla
-        (component loop with wrap-around, `d < 0 && !neg`) and DurFormat.tla:
-          Exact     accepted => result = exact sum            expected VIOLATED (known defect);
-                    every counterexample is replayed against the real ParseDuration
-          Safe      the design fails only in the two named shapes, never rejects a fitting total
-          FmtAll    Parse(Format(d)) = d, largest dividing unit, 0 -> "0s", for all d # MinInt64;
-                    the excluded value really does not come back
+pass M  Apalache, symbolic over all of int64 / uint64, on the design specs spec/c08/DurParse.tla
+        (checked uint64 accumulation of commit 7063cd7: limit MaxInt64 or MaxInt64+1, per-component
+        test n > (limit-mag)/mult, ParseUint numerals) and DurFormat.tla:
+          IndBase   Init => Inv
+          IndStep   Inv /\ Next => Inv'  and  Inv => Correct   (Correct = Exact /\ Complete /\
+                    RejectsUnfit /\ NoNamedShape): by induction, for ANY number of components
+          Correct2  the same checked directly from Init for 1..2 components (thorough tier only)
+          FmtAll    Parse(Format(d)) = d for ALL d (MinInt64 included), largest dividing unit, 0 -> "0s"
+          Weak      vacuity control: with the per-component test dropped `Exact` must be VIOLATED;
+                    the counterexamples are replayed against the real ParseDuration as extra cases
 pass G  TLC enumerates spellings / values around every overflow boundary (spec/c08/Gen_c08.tla,
         64-bit magnitudes as decimal strings via BigInt), the driver replays them into
         ParseDuration, FormatDuration and ParseStatement; a seeded random driver adds more
@@ -25,10 +28,14 @@ SPECDIRS = ("c08",)
 MULT_NAME = {1: "ns", 10**3: "u", 10**6: "ms", 10**9: "s", 60 * 10**9: "m", 3600 * 10**9: "h",
              86400 * 10**9: "d", 604800 * 10**9: "w"}
 
-#            module       invariant   length  extra args                                   expected
-APALACHE = [("DurParse", "Exact", 4, ["--cinit=CInit", "--max-error=6", "--view=CexView"], "violated"),
-            ("DurParse", "Safe", 4, ["--cinit=CInit"], "holds"),
-            ("DurFormat", "FmtAll", 1, [], "holds")]
+#            label      module       invariant        length  extra args                     expected
+APALACHE = [("IndBase", "DurParse", "Inv", 0, ["--cinit=CInit", "--init=Init"], "holds"),
+            ("IndStep", "DurParse", "InvAndCorrect", 1, ["--cinit=CInit", "--init=IndInit"], "holds"),
+            ("FmtAll", "DurFormat", "FmtAll", 1, [], "holds"),
+            ("Weak", "DurParse", "Exact", 4, ["--cinit=CInitWeak", "--max-error=6", "--view=CexView"], "violated")]
+# direct bounded check of the same property from Init (1..2 components, ~30 s), thorough tier only.
+# (1..3 components, --cinit=CInit --length=4, passes too but needs 4.5-15 min: not part of a tier)
+APALACHE_THOROUGH = [("Correct2", "DurParse", "Correct", 3, ["--cinit=CInit2"], "holds")]
 
 QUICK = dict(K=64, J=3, KS=4, J3=1, KS3=1, FE=2, FJ=8, SK=2, rand=(3000, 1500))
 THOROUGH = dict(K=1000, J=15, KS=16, J3=7, KS3=8, FE=50, FJ=500, SK=16, rand=(40000, 20000))
@@ -38,7 +45,7 @@ def gen_cfg(p):
     return ("SPECIFICATION Spec\nCONSTANTS\n"
             '  Parts = {"thr", "sum2", "sum3", "small", "bad", "fmt", "stmt"}\n'
             + "".join("  %s = %d\n" % (k, p[k]) for k in ("K", "J", "KS", "J3", "KS3", "FE", "FJ", "SK"))
-            + "INVARIANTS DesignOnlyKnown\nCHECK_DEADLOCK FALSE\n")
+            + "INVARIANTS DesignExact\nCHECK_DEADLOCK FALSE\n")
 
 
 def itf_int(v):
@@ -47,8 +54,8 @@ def itf_int(v):
     return int(v)
 
 
-def apalache_run(ctx, module, inv, length, extra):
-    rc, out, outdir = ctx.apalache(module, ["--inv=" + inv, "--length=%d" % length] + extra, timeout=420)
+def apalache_run(ctx, module, inv, length, extra, timeout=420):
+    rc, out, outdir = ctx.apalache(module, ["--inv=" + inv, "--length=%d" % length] + extra, timeout=timeout)
     cex = []
     if rc == 12:
         for f in sorted(glob.glob(os.path.join(outdir, "*", "*", "violation*.itf.json"))):
@@ -62,8 +69,9 @@ def apalache_run(ctx, module, inv, length, extra):
     return cex
 
 
-def cex_case(module, inv, s):
+def cex_case(module, label, s):
     """a counterexample state of a design spec as a case for the real code"""
+    inv = label
     if module == "DurParse":
         comps = []
         for c in s["comps"]:
@@ -88,8 +96,10 @@ def run(ctx):
                        "Python integers; threshold table and mod-2^64 reduction self-checked by ASSUME at start-up)",
                        "the Go driver computes the divisibility certificates q, r with / and %; the judge verifies "
                        "them by multiplication", "statement contexts are fixed templates; only the literal varies"]
-    pool = concurrent.futures.ThreadPoolExecutor(max_workers=5)
-    futs = [(m, inv, exp, pool.submit(apalache_run, ctx, m, inv, ln, extra)) for m, inv, ln, extra, exp in APALACHE]
+    runs = APALACHE + ([] if ctx.quick else APALACHE_THOROUGH)
+    pool = concurrent.futures.ThreadPoolExecutor(max_workers=len(runs) + 1)
+    futs = [(lb, m, inv, exp, pool.submit(apalache_run, ctx, m, inv, ln, extra, 420 if ctx.quick else 1500))
+            for lb, m, inv, ln, extra, exp in runs]
     build = pool.submit(ctx.build_driver)
 
     # ---- pass G: generate
@@ -97,21 +107,31 @@ def run(ctx):
     base = ctx.path("cases")
     r = ctx.tlc("Gen_c08", "Gen_c08_run.cfg", env={"CASE_FILE": base}, workers=4, timeout=1500)
     if r.invariant_violated:
-        raise vp.Broken("BigInt design twin leaves the named deviations (Gen_c08!DesignOnlyKnown): " + r.out[-2000:])
+        raise vp.Broken("the BigInt design twin is not exact on a generated spelling (Gen_c08!DesignExact): " + r.out[-2000:])
     build.result()
     ncase = {kind: ctx.count_lines(base + "." + kind) for kind in ("parse", "format", "stmt")}
     ctx.note("generation: TLC %d states in %.0fs; cases parse=%d format=%d stmt=%d" % (
         r.distinct, r.wall, ncase["parse"], ncase["format"], ncase["stmt"]))
 
     # ---- pass M: collect Apalache results; every counterexample becomes a case for the real code
+    # (the slow direct check of the thorough tier is collected after the judge)
     replay_cases = []
-    for m, inv, exp, f in futs:
+    late = []
+    for lb, m, inv, exp, f in futs:
+        if lb == "Correct2":
+            late.append((lb, m, inv, exp, f))
+            continue
         cex = f.result()
-        ctx.note("Apalache %s!%s: %s (expected: %s)" % (m, inv, "%d counterexample(s)" % len(cex) if cex else "no error", exp))
-        ctx.coverage_extra["apalache_%s_%s" % (m, inv)] = "violated" if cex else "holds"
+        ctx.note("Apalache %s (%s!%s): %s (expected: %s)" % (
+            lb, m, inv, "%d counterexample(s)" % len(cex) if cex else "no error", exp))
+        ctx.coverage_extra["apalache_" + lb] = "violated" if cex else "holds"
+        if cex and lb in ("IndBase", "IndStep"):
+            # a state of the induction is no behaviour of the design: nothing to replay
+            raise vp.Broken("inductive proof of DurParse!Correct failed at %s: %s" % (lb, json.dumps(cex[0])[:1500]))
+        if exp == "violated" and not cex:
+            raise vp.Broken("vacuity control failed: the weakened design spec (%s, Weak = TRUE) satisfies %s" % (m, inv))
         for s in cex:
-            replay_cases.append(cex_case(m, inv, s))
-    pool.shutdown()
+            replay_cases.append(cex_case(m, lb, s))
 
     # ---- drive: one run over all generated cases + the model counterexamples + seeded random cases
     allcases = ctx.path("cases_all.ndjson")
@@ -146,10 +166,19 @@ def run(ctx):
         v = byid.get(rec["id"])
         what = "%s %s -> %s" % (rec["fam"], rec["obs"].get("text", rec.get("d")),
                                 rec["obs"].get("val", rec["obs"].get("err", rec["obs"].get("back", "?"))))
-        if v is None:
-            raise vp.Broken("model counterexample not reproduced on the real code and not explained by "
-                            "drift (the design spec is wrong): " + what)
-        ctx.note("M-replay: %s : %s" % (what, v["class"]))
+        if v is None and rec["fam"] != "apalache:Weak":
+            # a counterexample to an invariant that must hold, and the real code is right: the design spec is wrong
+            raise vp.Broken("model counterexample not reproduced on the real code (the design spec is wrong): " + what)
+        ctx.note("M-replay: %s : %s" % (what, v["class"] if v else "ok (the real code is right where the weakened design fails)"))
+    for lb, m, inv, exp, f in late:
+        cex = f.result()
+        ctx.note("Apalache %s (%s!%s): %s (expected: %s)" % (
+            lb, m, inv, "%d counterexample(s)" % len(cex) if cex else "no error", exp))
+        ctx.coverage_extra["apalache_" + lb] = "violated" if cex else "holds"
+        if cex:
+            raise vp.Broken("the design spec violates %s!%s for <= 2 components although the inductive proof "
+                            "went through: %s" % (m, inv, json.dumps(cex_case(m, lb, cex[0]))))
+    pool.shutdown()
     broken = [v for v in ctx.verdicts if str(v.get("class", "")).startswith("harness:")]
     if broken:
         raise vp.Broken("unusable observation records: " + vp.short(broken[0]))
@@ -160,8 +189,8 @@ def run(ctx):
     ctx.exhaustive = False      # the random part is sampled; the TLC parts are BFS-complete inside their bounds
     ctx.coverage_extra["exhaustive_parts"] = ["thr", "sum2", "sum3", "small", "bad", "fmt", "stmt"]
     ctx.coverage_extra["sampled_parts"] = ["rand"]
-    ctx.coverage_extra["symbolic_parts"] = ["DurParse (<= 3 components, all int64 numerals, all units, both signs)",
-                                            "DurFormat (all int64 values)"]
+    ctx.coverage_extra["symbolic_parts"] = ["DurParse (inductive: any number of components, numerals up to 65 bits, "
+                                            "all units, both signs)", "DurFormat (all int64 values)"]
     ctx.coverage_extra["bounds"] = {k: v for k, v in p.items() if k != "rand"}
     return vp.case_finder
 
